@@ -365,6 +365,14 @@ def write_evidence(ctx, proof, cov, assumptions, violations):
         "coqchk": proof.get("coqchk", "not run in this tier (thorough tier runs coqchk -o on Props/%s.vo and its dependencies)" % ctx.prop),
     }
     coverage.update(cov)
+    # keys the evidence schema types: a harness must not reuse them for something else
+    typed = {"evaluations": int, "distinct_nontrivial": int, "states": int, "transitions": int,
+             "traces_validated_against_impl": int, "obligations": int, "discharged": int, "programs": int,
+             "disagreements_checked": int, "rule": str, "checker_cmd": str, "explanation": str,
+             "samples": list, "trusted_base": list, "exhaustive": bool}
+    for k, ty in typed.items():
+        if k in coverage and (not isinstance(coverage[k], ty) or (ty is int and isinstance(coverage[k], bool))):
+            coverage[k + "_detail"] = coverage.pop(k)
     try:
         import mokapot as _mk
         coverage["implementation_under_test"] = os.path.dirname(os.path.abspath(_mk.__file__))
